@@ -436,6 +436,8 @@ impl<Writer> MuxerBuilder<Writer> {
         // Fragmented MP4 requires video configuration
         let (codec, width, height, _framerate) =
             self.video.ok_or(MuxerError::MissingVideoConfig)?;
+        // Language set through with_metadata()/set_language() goes into the media header.
+        let language = self.metadata.as_ref().and_then(|m| m.language.clone());
 
         // Extract codec-specific configuration
         let (sps, pps, vps, av1_sequence_header, vp9_config) = match codec {
@@ -505,7 +507,9 @@ impl<Writer> MuxerBuilder<Writer> {
             vp9_config,
         };
 
-        Ok(FragmentedMuxer::new(config))
+        let mut muxer = FragmentedMuxer::new(config);
+        muxer.set_language(language);
+        Ok(muxer)
     }
 }
 
